@@ -11,15 +11,28 @@
 // with the sets of allowed observations the spec attached to the step.  Nothing is
 // ever judged by elapsed time; a run that does not quiesce is inconclusive.
 //
-// Steps: read c / run / rel i / close o / cancel / relall / finish (stepped, observed at quiescence
-// after every step); freerun (no gates, every consumer drains concurrently); race-start, race-close,
+// Steps: read c / run / rel i / close o / cancel 0 (the parent context) / cancel c (the context of
+// consumer c only: every consumer advances under a context of its own) / relall / finish (stepped,
+// observed at quiescence after every step); brel (burst: the user functions of the items in `set`
+// return at the same instant - they leave a spin latch together, GOMAXPROCS >= 4 - and the run is
+// observed at the next quiescent point; a schedule with a burst is repeated `arg` times on fresh
+// instances); freerun (no gates, every consumer drains concurrently); race-start, race-close,
 // race-cancel (arg = repetitions on fresh instances: concurrent first advances / an unsynchronised
-// stop against free-running consumers - the Go scheduler picks the interleaving).
+// stop against free-running consumers - the Go scheduler picks the interleaving); race-fill-close,
+// race-fill-cancel (arg = repetitions: every consumer takes one or two items of a long input and
+// stops without reading on, while the senders are filling the pipe).
+//
+// Configuration: cfg.cb = "ctx" makes the user functions respect their context (a held function
+// returns the context's error once it is cancelled, a call with a dead context returns it at once);
+// cfg.opt selects WorkerGroupConf options (e ContinueOnError, p ContinueOnPanic, c IncludeContextErrors).
 //
 // Oracles (generic, parameterised by the step's allowed sets): every user-function call is for an
 // input item not seen before; every output is f(input item), not output before and in `may`; the end
 // of an output only for consumers in `eofs`; a Close has returned; consumers in `must` are not
-// blocked (after a stop, or when no user function is held); Run has returned when `run` = must; with
+// blocked (after a stop - also a consumer in `live`, whose own output and context were NOT stopped:
+// a finite input always leads to io.EOF - or when no user function is held); no worker keeps invoking
+// a user function whose context is cancelled (more than 1000 x `calls` such invocations: the harness
+// parks the caller and reports it); Run has returned when `run` = must; with
 // `full` the delivered bag equals the input bag (and input order where cfg.ord); with `leak` and no
 // user function held the census (goroutines with a tychoish/fun frame, minus the baseline taken at
 // the start of the behaviour, minus the driver's own operations) is empty.
@@ -61,18 +74,23 @@ type config struct {
 	Ord bool   `json:"ord"` // the property demands input order on the output
 	Fn  bool   `json:"fn"`  // the construct has a gated user callback per item
 	Out int    `json:"out"` // number of outputs (Split: k, otherwise 1); 0 = no output iterator (worker groups)
+	Opt string `json:"opt"` // WorkerGroupConf options: e = ContinueOnError, p = ContinueOnPanic, c = IncludeContextErrors
+	Cb  string `json:"cb"`  // "plain": user functions ignore their context; "ctx": they return its error once it is cancelled
 }
 
 type step struct {
-	Op   string `json:"op"`
-	Arg  int    `json:"arg"`
-	May  []int  `json:"may"`  // items whose output may have been delivered by now (upper bound)
-	Eofs []int  `json:"eofs"` // consumers that may have seen the end of their output by now
-	Must []int  `json:"must"` // consumers whose pending read must have returned by now
-	Run  string `json:"run"`  // worker groups: "must" (Run must have returned) | "may" | "no" (must not)
-	Leak bool   `json:"leak"` // no library goroutine may remain (once no callback is held)
-	Full bool   `json:"full"` // the delivered bag must equal the input bag now
-	Stop string `json:"stop"` // how the consumer has stopped so far: "" | exhaust | close | cancel | close+cancel ...
+	Op    string `json:"op"`
+	Arg   int    `json:"arg"`
+	Set   []int  `json:"set"`   // brel: the items whose user functions are released in one burst
+	May   []int  `json:"may"`   // items whose output may have been delivered by now (upper bound)
+	Eofs  []int  `json:"eofs"`  // consumers that may have seen the end of their output by now
+	Must  []int  `json:"must"`  // consumers whose pending read must have returned by now
+	Live  []int  `json:"live"`  // consumers whose own output is open and whose own context is live
+	Calls int    `json:"calls"` // bound on the user-function invocations a run can legitimately need
+	Run   string `json:"run"`   // worker groups: "must" (Run must have returned) | "may" | "no" (must not)
+	Leak  bool   `json:"leak"`  // no library goroutine may remain (once no callback is held)
+	Full  bool   `json:"full"`  // the delivered bag must equal the input bag now
+	Stop  string `json:"stop"`  // how the consumer has stopped so far: "" | exhaust | close | cancel | close+cancel ...
 }
 
 type behaviour struct {
@@ -124,12 +142,142 @@ type consumer struct {
 	reads   int
 }
 
+// gates holds user functions at one gate per item.  Unlike rt.Gates a waiter can also be
+// released by its context (user functions that respect their context), and released waiters
+// pass a spin latch: while the latch is shut they spin (running, not blocked) and leave it
+// within nanoseconds of each other when the driver opens it - that is what makes the sends
+// of a burst race for the same slot of the pipe.
+type gates struct {
+	mu       sync.Mutex
+	ch       map[int]chan struct{}
+	open     map[int]bool
+	waiting  map[int]int
+	latch    atomic.Bool
+	spinning atomic.Int32
+	beat     [maxBurst]struct {
+		n atomic.Int64
+		_ [56]byte // one cache line per spinner
+	}
+}
+
+const maxBurst = 16
+
+func newGates() *gates {
+	return &gates{ch: map[int]chan struct{}{}, open: map[int]bool{}, waiting: map[int]int{}}
+}
+
+func (g *gates) chanOf(id int) chan struct{} {
+	c, ok := g.ch[id]
+	if !ok {
+		c = make(chan struct{})
+		g.ch[id] = c
+	}
+	return c
+}
+
+// Arm creates the (shut) gate of item id.
+func (g *gates) Arm(id int) { g.mu.Lock(); g.chanOf(id); g.mu.Unlock() }
+
+// Disarm opens the gate for good and releases everybody waiting.
+func (g *gates) Disarm(id int) {
+	g.mu.Lock()
+	if !g.open[id] {
+		g.open[id] = true
+		close(g.chanOf(id))
+	}
+	g.mu.Unlock()
+}
+
+// Arrive blocks at the gate of id (a gate that was never armed is open).  With a non-nil ctx the
+// wait also ends when ctx is done, and the context's error is returned.
+func (g *gates) Arrive(ctx context.Context, id int) error {
+	g.mu.Lock()
+	c, ok := g.ch[id]
+	if !ok || g.open[id] {
+		g.mu.Unlock()
+		return nil
+	}
+	g.waiting[id]++
+	g.mu.Unlock()
+	var err error
+	if ctx != nil {
+		select {
+		case <-c:
+		case <-ctx.Done():
+			err = ctx.Err()
+		}
+	} else {
+		<-c
+	}
+	g.mu.Lock()
+	g.waiting[id]--
+	g.mu.Unlock()
+	return err
+}
+
+// Pass is the last thing a released user function does before it returns into the library: while the
+// latch is shut it spins (running, not blocked; its heartbeat tells the driver that it is on a
+// processor right now) and leaves the moment the latch opens.
+func (g *gates) Pass(id int) {
+	if !g.latch.Load() {
+		return
+	}
+	slot := int(g.spinning.Add(1)-1) % maxBurst
+	for i := 1; g.latch.Load(); i++ {
+		g.beat[slot].n.Add(1)
+		if i%(1<<22) == 0 {
+			runtime.Gosched()
+		}
+	}
+}
+
+// OpenLatch opens the latch at a moment when every one of the n spinners was seen making progress
+// (all of them are on a processor), so that they leave within nanoseconds of each other.
+func (g *gates) OpenLatch(n int) {
+	var last [maxBurst]int64
+	for try := 0; try < 2000; try++ {
+		for i := 0; i < n && i < maxBurst; i++ {
+			last[i] = g.beat[i].n.Load()
+		}
+		for i := 0; i < 300; i++ {
+			spinSink.Add(1)
+		}
+		all := true
+		for i := 0; i < n && i < maxBurst; i++ {
+			if g.beat[i].n.Load() == last[i] {
+				all = false
+			}
+		}
+		if all {
+			break
+		}
+		if try%16 == 15 {
+			runtime.Gosched()
+		}
+	}
+	g.latch.Store(false)
+}
+
+// Waiting reports how many goroutines are held at the gate of id.
+func (g *gates) Waiting(id int) int { g.mu.Lock(); defer g.mu.Unlock(); return g.waiting[id] }
+
+// spinFactor: a worker is reported as spinning when the user functions were invoked with an already
+// cancelled context more than spinFactor times the spec's bound on ALL legitimate invocations of a run.
+const spinFactor = 1000
+
 type world struct {
 	cfg    config
 	rec    *rt.Recorder
-	g      *rt.Gates
+	g      *gates
 	pctx   context.Context
 	cancel context.CancelFunc
+	cctx   map[int]context.Context // every consumer advances under a context of its own (child of pctx)
+	ccan   map[int]context.CancelFunc
+
+	deadCalls atomic.Int64  // user-function invocations that found their context already cancelled
+	callLimit int64         // spinFactor * the spec's bound (0 = not judged)
+	trapped   atomic.Int32  // invocations parked in the trap after the limit was exceeded
+	trapCh    chan struct{} // closed at tear-down
 
 	mu       sync.Mutex
 	entered  []int // item ids in order of callback entry (duplicates kept)
@@ -150,10 +298,41 @@ type world struct {
 	useNext bool
 }
 
-func gate(i int) string { return "cb" + strconv.Itoa(i) }
+func newWorld(cfg config, rec *rt.Recorder) *world {
+	w := &world{cfg: cfg, rec: rec, g: newGates(), exited: map[int]int{}, released: map[int]bool{}, cons: map[int]*consumer{},
+		cctx: map[int]context.Context{}, ccan: map[int]context.CancelFunc{}, trapCh: make(chan struct{})}
+	w.pctx, w.cancel = context.WithCancel(context.Background())
+	return w
+}
 
-// enter is the body of every harness-supplied user function: log, wait at the gate, log.
-func (w *world) enter(id int, val int) {
+// consCtx is the context consumer c passes to every advance of its output.
+func (w *world) consCtx(c int) context.Context {
+	if ctx, ok := w.cctx[c]; ok {
+		return ctx
+	}
+	w.cctx[c], w.ccan[c] = context.WithCancel(w.pctx)
+	return w.cctx[c]
+}
+
+func (w *world) ctxAware() bool { return w.cfg.Cb == "ctx" }
+
+// dead is a user-function invocation that respects its context and finds it already cancelled: it
+// returns the context's error at once.  A worker that keeps calling is stopped by the trap once the
+// number of such calls is beyond anything a terminating run can need (judged by the caller).
+func (w *world) dead(ctx context.Context) error {
+	n := w.deadCalls.Add(1)
+	if w.callLimit > 0 && n > w.callLimit {
+		w.trapped.Add(1)
+		<-w.trapCh
+		return io.EOF
+	}
+	return ctx.Err()
+}
+
+// enter is the body of every harness-supplied user function: log, wait at the gate, log.  A
+// function that respects its context (cfg.cb = "ctx") returns the context's error instead of
+// waiting on once the context is cancelled.
+func (w *world) enter(ctx context.Context, id int, val int) error {
 	w.rec.Log(rt.Event{"ev": "cb_enter", "item": id})
 	w.mu.Lock()
 	if id < 1 || id > w.cfg.N {
@@ -161,11 +340,39 @@ func (w *world) enter(id int, val int) {
 	}
 	w.entered = append(w.entered, id)
 	w.mu.Unlock()
-	w.g.Arrive(gate(id))
+	var err error
+	if w.ctxAware() {
+		if ctx.Err() != nil {
+			err = w.dead(ctx)
+		} else {
+			err = w.g.Arrive(ctx, id)
+		}
+	} else {
+		_ = w.g.Arrive(nil, id)
+	}
 	w.mu.Lock()
 	w.exited[id]++
 	w.mu.Unlock()
 	w.rec.Log(rt.Event{"ev": "cb_exit", "item": id})
+	if err == nil {
+		w.g.Pass(id)
+	}
+	return err
+}
+
+// opts are the worker-group options of the configuration.
+func (w *world) opts() []fun.OptionProvider[*fun.WorkerGroupConf] {
+	out := []fun.OptionProvider[*fun.WorkerGroupConf]{fun.WorkerGroupConfNumWorkers(w.cfg.K)}
+	if strings.Contains(w.cfg.Opt, "e") {
+		out = append(out, fun.WorkerGroupConfContinueOnError())
+	}
+	if strings.Contains(w.cfg.Opt, "p") {
+		out = append(out, fun.WorkerGroupConfContinueOnPanic())
+	}
+	if strings.Contains(w.cfg.Opt, "c") {
+		out = append(out, fun.WorkerGroupConfIncludeContextErrors())
+	}
+	return out
 }
 
 func (w *world) slice(ids []int) []int {
@@ -200,17 +407,34 @@ func (w *world) source() *fun.Iterator[int] { return fun.SliceIterator(w.slice(s
 // build constructs the real pipeline.  Nothing may start a goroutine before the first advance.
 func (w *world) build() error {
 	c := w.cfg
-	nw := fun.WorkerGroupConfNumWorkers(c.K)
 	switch c.C {
 	case "map":
-		w.outs = []*fun.Iterator[int]{fun.Map(w.source(), func(_ context.Context, v int) (int, error) {
-			w.enter(v-inBase, v)
+		w.outs = []*fun.Iterator[int]{fun.Map(w.source(), func(ctx context.Context, v int) (int, error) {
+			if err := w.enter(ctx, v-inBase, v); err != nil {
+				return 0, err
+			}
 			return v - inBase + outBase, nil
-		}, nw)}
+		}, w.opts()...)}
 	case "pp", "pfe", "worker":
 		// started by the "run" step
 	case "pbuf":
 		w.outs = []*fun.Iterator[int]{w.source().ParallelBuffer(c.K)}
+	case "pbufg":
+		// the body of Iterator.ParallelBuffer (iterator.go), statement by statement, with two differences: the
+		// capacity of the pipe is a parameter of its own, and the workers' processor passes the gate of its
+		// item before it hands the item to buf.Send().Write - a yield point in front of the send, so that the
+		// schedule decides how many senders meet at the pipe and when
+		src := w.source()
+		buf := fun.Blocking(make(chan int, c.Cap))
+		send := buf.Send()
+		proc := fun.Processor[int](func(ctx context.Context, v int) error {
+			if err := w.enter(ctx, v-inBase, v); err != nil {
+				return err
+			}
+			return send.Write(ctx, v)
+		})
+		pipe := src.ProcessParallel(proc, w.opts()...).Operation(src.ErrorHandler().Lock()).PostHook(buf.Close).Once().Go()
+		w.outs = []*fun.Iterator[int]{buf.Producer().PreHook(pipe).IteratorWithHook(func(si *fun.Iterator[int]) { si.AddError(src.Close()) })}
 	case "buffer":
 		w.outs = []*fun.Iterator[int]{w.source().Buffer(c.Cap)}
 	case "split":
@@ -222,14 +446,19 @@ func (w *world) build() error {
 		}
 		w.outs = []*fun.Iterator[int]{fun.MergeIterators(srcs...)}
 	case "gen":
-		w.outs = []*fun.Iterator[int]{fun.Producer[int](func(context.Context) (int, error) {
+		w.outs = []*fun.Iterator[int]{fun.Producer[int](func(ctx context.Context) (int, error) {
+			if w.ctxAware() && ctx.Err() != nil {
+				return 0, w.dead(ctx) // no item is taken by a call that finds its context cancelled
+			}
 			id := int(w.genNext.Add(1))
 			if id > c.N {
 				return 0, io.EOF
 			}
-			w.enter(id, inBase+id)
+			if err := w.enter(ctx, id, inBase+id); err != nil {
+				return 0, err
+			}
 			return inBase + id, nil
-		}).GenerateParallel(nw)}
+		}).GenerateParallel(w.opts()...)}
 	case "multiread":
 		ch := make(chan int, c.N)
 		for _, v := range w.slice(seq(1, c.N)) {
@@ -293,23 +522,22 @@ func (w *world) build() error {
 
 func (w *world) startRun() {
 	c := w.cfg
-	proc := func(_ context.Context, v int) error { w.enter(v-inBase, v); return nil }
-	nw := fun.WorkerGroupConfNumWorkers(c.K)
+	proc := func(ctx context.Context, v int) error { return w.enter(ctx, v-inBase, v) }
 	switch c.C {
 	case "pp":
-		wk := w.source().ProcessParallel(proc, nw)
+		wk := w.source().ProcessParallel(proc, w.opts()...)
 		w.runOp = rt.Start(-1, func() any { return errStr(wk.Run(w.pctx)) })
 	case "pfe":
 		src := w.source()
-		w.runOp = rt.Start(-1, func() any { return errStr(itertool.ParallelForEach(w.pctx, src, proc, nw)) })
+		w.runOp = rt.Start(-1, func() any { return errStr(itertool.ParallelForEach(w.pctx, src, proc, w.opts()...)) })
 	case "worker":
 		var ops []fun.Worker
 		for _, id := range seq(1, c.N) {
 			id := id
-			ops = append(ops, func(context.Context) error { w.enter(id, inBase+id); return nil })
+			ops = append(ops, func(ctx context.Context) error { return w.enter(ctx, id, inBase+id) })
 		}
 		src := fun.SliceIterator(ops)
-		w.runOp = rt.Start(-1, func() any { return errStr(itertool.Worker(w.pctx, src, nw)) })
+		w.runOp = rt.Start(-1, func() any { return errStr(itertool.Worker(w.pctx, src, w.opts()...)) })
 	}
 }
 
@@ -365,10 +593,10 @@ func (w *world) startDrain(c int) *rt.Op {
 			return nil
 		})
 	}
-	it := w.outs[w.outOf(c)]
+	it, ctx := w.outs[w.outOf(c)], w.consCtx(c)
 	return rt.Start(c, func() any {
 		for {
-			v, err := it.ReadOne(w.pctx)
+			v, err := it.ReadOne(ctx)
 			w.mu.Lock()
 			if err != nil {
 				x.ended, x.endErr = true, err.Error()
@@ -388,10 +616,18 @@ func (w *world) startDrain(c int) *rt.Op {
 // panic, every advance must return, and (judged by the caller at the final quiescent point) no
 // library goroutine may remain.  A panic inside a library goroutine kills the process; the
 // replay driver re-runs the behaviour alone and reports the reproduced crash.
+//
+// race-fill-close / race-fill-cancel are the same race at the other end of the pipe: the input is long
+// compared with the pipe, every consumer takes one or two items and then stops (Close of its output /
+// cancellation) WITHOUT reading on, so the stop lands while the senders are filling the pipe for the
+// first time and compete for its last free slots (user functions return at once).  The judgement is
+// the same: every advance returns, nothing of the library remains at the final quiescent point.
 func (w *world) race(op string, reps int, seed int) string {
+	fill := strings.HasPrefix(op, "race-fill")
+	cancelMode := strings.HasSuffix(op, "cancel") || w.cfg.Out == 0
 	for r := 0; r < reps; r++ {
-		sub := &world{cfg: w.cfg, rec: w.rec, g: rt.NewGates(), exited: map[int]int{}, released: map[int]bool{}, cons: map[int]*consumer{}}
-		sub.pctx, sub.cancel = context.WithCancel(context.Background())
+		sub := newWorld(w.cfg, w.rec)
+		reads := 1 + r%2 // fill: items a consumer takes before it stops
 		if err := sub.build(); err != nil {
 			return err.Error()
 		}
@@ -413,10 +649,27 @@ func (w *world) race(op string, reps int, seed int) string {
 		if w.cfg.Out == 0 {
 			sub.startRun()
 		}
+		// where the stop lands relative to the first advance is varied by a short busy loop (no clock)
+		spin := ((r + seed) * 37) % 2048
+		afterBurst := func() {
+			for y := 0; y < spin; y++ {
+				spinSink.Add(1)
+			}
+		}
 		for c := 1; c <= sub.numConsumers(); c++ {
+			c := c
 			if w.cfg.C == "bufchan" {
 				ch := sub.source().BufferedChannel(sub.pctx, w.cfg.Cap)
 				guard("advance", func() {
+					if fill {
+						for j := 0; j < reads; j++ {
+							if _, ok := <-ch; !ok {
+								break
+							}
+						}
+						afterBurst()
+						sub.cancel()
+					}
 					for range ch {
 					}
 				})
@@ -424,6 +677,21 @@ func (w *world) race(op string, reps int, seed int) string {
 			}
 			it, ctx := sub.outs[sub.outOf(c)], sub.pctx
 			guard("advance", func() {
+				if fill {
+					// the documented way of stopping early: take what you need, then Close / cancel
+					for j := 0; j < reads; j++ {
+						if _, err := it.ReadOne(ctx); err != nil {
+							break
+						}
+					}
+					afterBurst()
+					if !cancelMode {
+						_ = it.Close()
+					} else if c == 1 {
+						sub.cancel()
+					}
+					return
+				}
 				for {
 					if _, err := it.ReadOne(ctx); err != nil {
 						return
@@ -431,27 +699,27 @@ func (w *world) race(op string, reps int, seed int) string {
 				}
 			})
 		}
-		// where the stop lands relative to the first advance is varied by a short busy loop (no clock)
-		spin := ((r + seed) * 37) % 2048
 		yields := 0
 		if r%11 == 10 {
 			yields = 1 + r%3
 		}
-		guard("stop", func() {
-			for y := 0; y < spin; y++ {
-				spinSink.Add(1)
-			}
-			for y := 0; y < yields; y++ {
-				runtime.Gosched()
-			}
-			if op == "race-cancel" || w.cfg.Out == 0 {
-				sub.cancel()
-				return
-			}
-			for _, it := range sub.outs {
-				_ = it.Close()
-			}
-		})
+		if !fill || w.cfg.Out == 0 {
+			guard("stop", func() {
+				for y := 0; y < spin; y++ {
+					spinSink.Add(1)
+				}
+				for y := 0; y < yields; y++ {
+					runtime.Gosched()
+				}
+				if cancelMode {
+					sub.cancel()
+					return
+				}
+				for _, it := range sub.outs {
+					_ = it.Close()
+				}
+			})
+		}
 		// the advances return after the stop (finite input; Close / cancel release a blocked advance);
 		// should one of them hang, this join hangs and the replay driver's timeout reports exit 2
 		wg.Wait()
@@ -477,8 +745,7 @@ func (w *world) race(op string, reps int, seed int) string {
 func (w *world) raceStart(reps int) string {
 	n := w.cfg.N
 	for r := 0; r < reps; r++ {
-		sub := &world{cfg: w.cfg, rec: &rt.Recorder{}, g: rt.NewGates(), exited: map[int]int{}, released: map[int]bool{}, cons: map[int]*consumer{}}
-		sub.pctx, sub.cancel = context.WithCancel(context.Background())
+		sub := newWorld(w.cfg, &rt.Recorder{})
 		if err := sub.build(); err != nil {
 			return err.Error()
 		}
@@ -602,12 +869,12 @@ func (w *world) startRead(c int) {
 		})
 		return
 	}
-	it := w.outs[w.outOf(c)]
+	it, ctx := w.outs[w.outOf(c)], w.consCtx(c)
 	if w.useNext && w.cfg.C != "multiread" {
 		// Next/Value is documented as not safe for concurrent use: only where this consumer
 		// owns its iterator (every construct but the concurrent-ReadOne one)
 		x.pending = rt.Start(c, func() any {
-			if it.Next(w.pctx) {
+			if it.Next(ctx) {
 				return readRes{val: it.Value()}
 			}
 			return readRes{err: errNextFalse}
@@ -615,7 +882,7 @@ func (w *world) startRead(c int) {
 		return
 	}
 	x.pending = rt.Start(c, func() any {
-		v, err := it.ReadOne(w.pctx)
+		v, err := it.ReadOne(ctx)
 		return readRes{val: v, err: err}
 	})
 }
@@ -691,7 +958,7 @@ func (w *world) observe(name string, snap []rt.G, base map[int]bool) obs {
 	o.Entered = append([]int{}, w.entered...)
 	seen := map[int]bool{}
 	for _, id := range w.entered {
-		if !seen[id] && w.g.Waiting(gate(id)) > 0 {
+		if !seen[id] && w.g.Waiting(id) > 0 {
 			o.Held = append(o.Held, id)
 		}
 		seen[id] = true
@@ -728,7 +995,23 @@ func (w *world) observe(name string, snap []rt.G, base map[int]bool) obs {
 			o.Lib = append(o.Lib, where(g))
 		}
 	}
-	sort.Strings(o.Lib)
+	// sorted; the first entry names the finding: a goroutine stuck in a channel operation before one that
+	// merely waits for others (WaitGroup.Wait, a Once somebody else is running)
+	rank := func(s string) int {
+		switch {
+		case strings.Contains(s, "fun.Chan"):
+			return 0
+		case strings.Contains(s, "WaitGroup") || strings.HasSuffix(s, ".Once"):
+			return 2
+		}
+		return 1
+	}
+	sort.Slice(o.Lib, func(a, b int) bool {
+		if ra, rb := rank(o.Lib[a]), rank(o.Lib[b]); ra != rb {
+			return ra < rb
+		}
+		return o.Lib[a] < o.Lib[b]
+	})
 	for _, g := range snap {
 		if strings.Contains(g.Stack, "verif/harness/rt.Start") {
 			st := g.Stack
@@ -796,15 +1079,51 @@ func has(xs []int, v int) bool {
 	return false
 }
 
-func replay(in input, trace bool) (result map[string]any) {
-	cfg := in.Beh.Cfg
-	w := &world{cfg: cfg, rec: &rt.Recorder{}, g: rt.NewGates(), exited: map[int]int{}, released: map[int]bool{},
-		cons: map[int]*consumer{}}
-	w.useNext = in.N%3 == 1
-	w.pctx, w.cancel = context.WithCancel(context.Background())
-	for i := 1; i <= cfg.N; i++ {
-		w.g.Arm(gate(i))
+// replay runs one behaviour.  A schedule with a burst step is a race the Go scheduler decides: it is
+// repeated (the step's arg, chosen by the spec) on fresh instances; every repetition is judged in full
+// at its quiescent points, the first one that fails decides.
+func replay(in input, trace bool) map[string]any {
+	reps := 1
+	for _, st := range in.Beh.Steps {
+		if st.Op == "brel" && st.Arg > reps {
+			reps = st.Arg
+		}
 	}
+	// a re-run of a race that hit may ask for more repetitions of the same schedule
+	if more, err := strconv.Atoi(os.Getenv("VH_BURST_REPS")); err == nil && reps > 1 && more > reps {
+		reps = more
+	}
+	var res map[string]any
+	r := 0
+	for ; r < reps; r++ {
+		res = replayOnce(in, trace, r)
+		if res["ok"] != true || res["inconclusive"] != nil {
+			break
+		}
+	}
+	if reps > 1 {
+		res["reps"] = reps
+		res["round"] = r
+	}
+	return res
+}
+
+func replayOnce(in input, trace bool, round int) (result map[string]any) {
+	cfg := in.Beh.Cfg
+	w := newWorld(cfg, &rt.Recorder{})
+	w.useNext = (in.N+round)%3 == 1
+	if len(in.Beh.Steps) > 0 {
+		w.callLimit = spinFactor * int64(in.Beh.Steps[0].Calls)
+	}
+	for i := 1; i <= cfg.N; i++ {
+		w.g.Arm(i)
+	}
+	procs := runtime.GOMAXPROCS(0)
+	defer func() {
+		if runtime.GOMAXPROCS(0) != procs {
+			runtime.GOMAXPROCS(procs)
+		}
+	}()
 	base := map[int]bool{}
 	for _, g := range rt.FunGoroutines(rt.Snapshot()) {
 		base[g.ID] = true
@@ -812,10 +1131,12 @@ func replay(in input, trace bool) (result map[string]any) {
 	var log []obs
 	defer func() {
 		// tear down whatever is left so that later behaviours of this process start clean
+		w.g.latch.Store(false)
 		for i := 1; i <= cfg.N; i++ {
-			w.g.Disarm(gate(i))
+			w.g.Disarm(i)
 		}
 		w.cancel()
+		close(w.trapCh)
 		for _, it := range w.outs {
 			if it != nil {
 				it := it
@@ -855,26 +1176,62 @@ func replay(in input, trace bool) (result map[string]any) {
 		case "run":
 			w.startRun()
 		case "rel":
-			if w.g.Waiting(gate(st.Arg)) == 0 {
+			if w.g.Waiting(st.Arg) == 0 {
 				return inconclusive(in, fmt.Sprintf("step %d: callback of item %d is not held (schedule not executable on this run)", k, st.Arg))
 			}
 			w.released[st.Arg] = true
-			w.g.Disarm(gate(st.Arg))
+			w.g.Disarm(st.Arg)
+		case "brel":
+			// burst: the user functions of st.Set return at the same instant.  They are let through their
+			// gates with the spin latch shut, gather there (running, on processors of their own), and leave
+			// together when the latch opens; no quiescence before all of them are gone.
+			for _, i := range st.Set {
+				if w.g.Waiting(i) == 0 {
+					return inconclusive(in, fmt.Sprintf("step %d: callback of item %d is not held (schedule not executable on this run)", k, i))
+				}
+			}
+			if want := len(st.Set) + 2; runtime.GOMAXPROCS(0) < want || runtime.GOMAXPROCS(0) < 4 {
+				if want < 4 {
+					want = 4
+				}
+				runtime.GOMAXPROCS(want)
+			}
+			w.g.spinning.Store(0)
+			w.g.latch.Store(true)
+			for _, i := range st.Set {
+				w.released[i] = true
+				w.g.Disarm(i)
+			}
+			for p := 0; int(w.g.spinning.Load()) < len(st.Set); p++ {
+				if p > 50_000_000 {
+					w.g.latch.Store(false)
+					return inconclusive(in, fmt.Sprintf("step %d: the released user functions did not gather at the latch", k))
+				}
+				if p%64 == 63 {
+					runtime.Gosched()
+				}
+			}
+			w.g.OpenLatch(len(st.Set))
 		case "relall":
 			for i := 1; i <= cfg.N; i++ {
 				w.released[i] = true
-				w.g.Disarm(gate(i))
+				w.g.Disarm(i)
 			}
 		case "close":
 			it := w.outs[st.Arg-1]
 			w.closes = append(w.closes, rt.Start(k, func() any { return errStr(it.Close()) }))
 		case "cancel":
-			w.cancel()
+			if st.Arg == 0 {
+				w.cancel()
+			} else {
+				w.consCtx(st.Arg) // a consumer that never advanced has a context all the same
+				w.ccan[st.Arg]()
+			}
 		case "finish":
 			// undisturbed completion: every user function returns, every consumer reads to the end
 			for i := 1; i <= cfg.N; i++ {
 				w.released[i] = true
-				w.g.Disarm(gate(i))
+				w.g.Disarm(i)
 			}
 			for c := 1; c <= w.numConsumers(); c++ {
 				for j := 0; j <= cfg.N+1; j++ {
@@ -897,7 +1254,7 @@ func replay(in input, trace bool) (result map[string]any) {
 			// its output concurrently; the real scheduler picks the interleaving
 			for i := 1; i <= cfg.N; i++ {
 				w.released[i] = true
-				w.g.Disarm(gate(i))
+				w.g.Disarm(i)
 			}
 			if cfg.Out == 0 {
 				w.startRun()
@@ -913,7 +1270,7 @@ func replay(in input, trace bool) (result map[string]any) {
 				}
 				return inconclusive(in, why)
 			}
-		case "race-close", "race-cancel":
+		case "race-close", "race-cancel", "race-fill-close", "race-fill-cancel":
 			if why := w.race(st.Op, st.Arg, in.N); why != "" {
 				return inconclusive(in, why)
 			}
@@ -991,6 +1348,10 @@ func replay(in input, trace bool) (result map[string]any) {
 				return fail(k, stopName(st.Stop)+"/run-blocked", "a Run raced by a cancellation has not returned", o)
 			}
 		}
+		// a worker that keeps invoking a context-respecting user function after the stop never exits
+		if n := w.trapped.Load(); n > 0 {
+			return fail(k, stopName(st.Stop)+"/worker-spins-after-stop", fmt.Sprintf("user functions were invoked %d times with an already cancelled context (each returned the context's error at once) - more than %d x the %d invocations a whole run can need; %d worker(s) were caught in the loop (options %q): they never exit", w.deadCalls.Load(), spinFactor, st.Calls, n, cfg.Opt), o)
+		}
 		// Close never blocks
 		if o.Closes > 0 {
 			return fail(k, stopName(st.Stop)+"/close-blocks", "a Close call has not returned by quiescence", o)
@@ -998,6 +1359,13 @@ func replay(in input, trace bool) (result map[string]any) {
 		// a consumer that must have returned is not blocked
 		for _, c := range st.Must {
 			if has(o.Blocked, c) {
+				if st.Stop != "" && st.Stop != "exhaust" && has(st.Live, c) {
+					// C04 "a finite input always leads to io.EOF (no deadlock)": this consumer did not stop
+					if len(o.Held) == 0 {
+						return fail(k, st.Stop+"/live-consumer-blocked", fmt.Sprintf("consumer %d - its own output is open and its own context is live - is blocked in its advance at quiescence after a sibling was stopped (%s) and no user function is held: nothing serves the pipe any more and nobody closed it, the finite input no longer leads to io.EOF (%d of %d delivered)", c, st.Stop, total, cfg.N), o)
+					}
+					continue
+				}
 				if st.Stop != "" && st.Stop != "exhaust" {
 					return fail(k, st.Stop+"/reader-still-blocked", fmt.Sprintf("consumer %d is still blocked in its advance after the stop (%s)", c, st.Stop), o)
 				}
